@@ -18,7 +18,16 @@ def spell_mn(rng, mn):
 
 
 def spell_num(rng, v):
-    return f"0x{v:x}" if rng.random() < 0.4 else (f"0x{v:X}" if rng.random() < 0.2 else str(v))
+    r = rng.random()
+    if r < 0.3:
+        return f"0x{v:x}"
+    if r < 0.45:
+        return f"0x{v:X}"
+    if r < 0.55:
+        return f"0x{v:0{rng.choice([3, 4, 6])}x}"          # zero-padded hexadecimal
+    if r < 0.7:
+        return f"{v:0{rng.choice([2, 4, 5])}d}"             # zero-padded decimal: legal (the grammar reads decimals with base 10)
+    return str(v)
 
 
 def gen_abstract(rng):
@@ -192,6 +201,9 @@ def oracle(c, prop):
     words, mem, maxpc = denote(items, variables)
     out = c.impl_out[1] if len(c.impl_out) > 1 else ""
     snap = c.impl_out[2] if len(c.impl_out) > 2 else ""
+    if out.startswith("X"):
+        fails.append(Failure("oracle", prop, f"loading a well-formed TOY program raised {out.split()[1]} -- text {c.meta['text']!r}", "toyasm:valid-raises"))
+        return fails
     if out != "ok":
         fails.append(Failure("oracle", prop, f"well-formed TOY program rejected: {out} -- text {c.meta['text']!r}", "toyasm:valid-rejected"))
         return fails
